@@ -15,6 +15,8 @@ CLAIMED = {
          "connection classes are decided by the first stream byte through spec matchers plus the real tls matcher/handler; GOMAXPROCS is set per run to choose the connChan capacity"),
  "C09": ("§6 C09", "Seeded simulation of the real UDP server loop and packetConn (reader goroutine, udpConns table, readCh/closeCh/closed protocol, idle and deadline timers) with several client addresses, bursts beyond the channel capacities, drop/dup/reorder/delay before arrival, handlers that finish after k datagrams, idle expiry, temporary read errors and socket Close; inserted yield points and a tape-driven select make the close/arrival windows explorable and replayable. Oracle over arrival order at the socket; process survival is part of the verdict.",
          "no order is demanded between two simultaneously alive associations of one client (a stale close notification can start a second one); datagrams queued in an association that ends are excusably lost; goroutine exit at shutdown is not part of the statement and not checked"),
+ "C03": ("§6 C03", "Seeded simulation of the real proxy handler (dial, chained TeeReader pump, per-upstream copiers, CloseWrite propagation, deferred cleanup) behind optional matcher/consume/throttle/proxy_protocol/tls handlers against 1..3 scripted upstream peers; reference streams in both directions, EOF propagation in either order while the other direction still flows, handler return, upstream closure and goroutine census, bounded liveness; faults (resets, stalls, early full close) in a separate configuration with prefix-only oracles.",
+         "TLS-terminated downstream is explored with a single peer (two relay goroutines writing one tls.Conn contend on a sync.Mutex that synctest cannot see); UDP up/downstream of the proxy is not in this world"),
 }
 NA = {
  "C07": "pure function of the ClientHello bytes (differential input testing against crypto/tls): no schedule, clock, fault or interleaving for a simulator to decide; its one schedule-dependent clause is exercised under C06",
@@ -22,7 +24,7 @@ NA = {
  "C15": "Caddyfile->JSON adaptation and JSON round trip are pure single-threaded functions of the configuration text",
  "C18": "FromBytes/ToBytes inverse laws are pure functions of byte strings",
 }
-PENDING = ["C03","C04","C06","C08","C10","C11","C12","C16"]
+PENDING = ["C04","C06","C08","C10","C11","C12","C16"]
 m = {
  "version": 1,
  "setup_cmd": "./check build",
